@@ -353,7 +353,7 @@ func decimalBytes(t *rapid.T, l ref.Leaf, st Style, label string) []byte {
 // / sort keys and in bounds checks).
 var OrderedLeafIDs = []string{
 	"bool", "int32", "int64", "int8", "int16", "uint8", "uint16", "uint32", "uint64",
-	"float", "double", "bytes", "string", "flba:1", "flba:3", "flba:16", "flba:20", "uuid",
+	"float", "double", "bytes", "string", "flba:1", "flba:3", "flba:4", "flba:8", "flba:16", "flba:20", "flba:40", "uuid",
 	"date", "ts:ms", "ts:us", "ts:ns", "time:ms", "time:us", "time:ns",
 	"dec32:9:2", "dec32:4:0", "dec64:18:4", "dec64:12:3", "decflba:5:10:3", "decflba:16:38:6", "decflba:2:4:1", "decbytes:20:5",
 	"json", "enum", "bson",
